@@ -25,13 +25,28 @@ def _first(v):
     return v.items[0] if isinstance(v, seqdom.Tup) and v.items else v
 
 
-def analyse(prog, fi, method, pY, pR, pbr, pm):
+def variants(fi):
+    """the ways the reference records reach the routine: as its second argument, or (when it has such a parameter) as a list of channel
+    numbers to be selected from the first"""
+    pos, kwo, _, _ = astq.params_of(fi.node)
+    return ("yref", "refind") if "ref_ind" in pos + kwo else ("yref",)
+
+
+def analyse(prog, fi, method, pY, pR, pbr, pm, variant="yref"):
     """the returned Hankel / Toeplitz matrix as a term of sa/hankdom.py, for one method, uncertainty off"""
     from .. import hankdom, seqdom
-    it = hankdom.Interp(prog, roles={pY: ("rec", "all"), pR: ("rec", "ref")})
+    has_ri = "ref_ind" in astq.params_of(fi.node)[0] + astq.params_of(fi.node)[1]
+    extra, consts = {}, {}
+    if variant == "refind":
+        it = hankdom.Interp(prog, roles={pY: ("rec", "all"), "ref_ind": ("refidx",)})
+        extra, consts = {pR: seqdom.K(None)}, {pR: None}
+    else:
+        it = hankdom.Interp(prog, roles={pY: ("rec", "all"), pR: ("rec", "ref")})
+        if has_ri:
+            extra, consts = {"ref_ind": seqdom.K(None)}, {"ref_ind": None}
     # (the method label written into the body first: a dispatch table indexed with it becomes the call of one builder)
-    fi = astq.PrunedFn(fi, {pm: method, "calc_unc": False}, subst=True)
-    rets = it.run(fi, {pm: seqdom.K(method), "calc_unc": seqdom.K(False), pbr: seqdom.I(P.s(pbr))})
+    fi = astq.PrunedFn(fi, dict({pm: method, "calc_unc": False}, **consts), subst=True)
+    rets = it.run(fi, dict({pm: seqdom.K(method), "calc_unc": seqdom.K(False), pbr: seqdom.I(P.s(pbr))}, **extra))
     out = []
     for v, n in rets:
         h = _first(v)
@@ -41,6 +56,7 @@ def analyse(prog, fi, method, pY, pR, pbr, pm):
 
 
 def check(prog, run):
+    astq.shortcut_obligations(prog, run, [m_.qual for _, m_ in prog.class_methods("pyoma2.algorithms.ssi", "run")] + ["functions.ssi.build_hank"])
     hankel_rules(prog, run)
     method_rule(prog, run)
 
@@ -75,9 +91,9 @@ def hankel_rules(prog, run):
 
     # ------------------------------------------------------------ cov_mm and dat
     results = {}
-    for method in ("cov_mm", "dat"):
-        cfg = f"method={method}"
-        hs, it = analyse(prog, fi, method, pY, pR, pbr, pm)
+    for method, variant in [(m_, v_) for m_ in ("cov_mm", "dat") for v_ in variants(fi)]:
+        cfg = f"method={method}" + (",references by index" if variant == "refind" else "")
+        hs, it = analyse(prog, fi, method, pY, pR, pbr, pm, variant)
         for enode, etxt in it.errors:
             ob("R-lag", "structure: block rows keep the channel order", False, f"{cfg}: {etxt}", witness=etxt[:80], node=enode, config=cfg)
         if it.errors:
